@@ -214,6 +214,16 @@ def _c11_plan(tier, seed):
         if info[n]['sup']:
             for cfg in ('sup_plain', 'sup_main_gabi', 'sup_peer_gabi', 'sup_both_gabi', 'sup_noloader', 'sup_nofollow', 'sup_split_link'):
                 plan.append((n, cfg, None))
+    # a large, highly compressible tail on .debug_str (the view never looks at it: strings are fetched by offset): compressed
+    # payloads spanning several read chunks with an extreme inflation ratio in the first one
+    big = [n for n in elig if '.debug_str' in info[n]['debug'] and not info[n]['sup']][:6 if tier == 'quick' else 40]
+    for n in big:
+        plan.append((n, 'gabi', {'level': 6, 'pad_str': 1}))
+        plan.append((n, 'gabi', {'level': 1, 'pad_str': 2}))
+        if not info[n]['relocs']:
+            plan.append((n, 'zdebug_all', {'level': 6, 'pad_str': 1}))
+            plan.append((n, 'zdebug_all', {'level': 9, 'pad_str': 2}))
+            plan.append((n, 'split_link', {'peer': 'zdebug', 'pad_str': 1}))
     for main, (peer, stored) in sorted(LINK_PAIRS.items()):
         for cfg in ('corpus_link', 'corpus_link_peer_gabi', 'corpus_link_nofollow', 'corpus_link_flip', 'corpus_link_trunc', 'corpus_link_wrong'):
             plan.append((main, cfg, None))
@@ -251,10 +261,17 @@ def _c11_gen(seed, tier, index):
     return dict(engine=ENGINE, mode='C11', file=n, config=cfg, params=params, seeded=rs)
 
 
-def _plain_image(data):
+def _plain_image(data, pad_str=0):
     img = elfedit.Image(data)
     for s in img.debug_sections():
         img.to_plain(s)
+    if pad_str:
+        s = img.find('.debug_str')
+        if s is not None:
+            import random
+            rr = random.Random(pad_str)
+            tail = bytes(1500000 if pad_str == 1 else 300000) + bytes(rr.getrandbits(8) for _ in range(9000)) + bytes(70000)
+            img.set_content(s, img.content(s) + tail)
     return img
 
 
@@ -387,13 +404,13 @@ def _c11_exec(spec):
         res = open_view(data, follow=False, loader=False)
         same_view(res, 'identity')
     elif cfg == 'gabi':
-        img = _plain_image(data)
+        img = _plain_image(data, p.get('pad_str', 0))
         for s in chosen(img):
             img.to_gabi(s, level)
         res = open_view(img.build(), follow=False, loader=False)
         same_view(res, 'gabi')
     elif cfg in ('zdebug_all', 'zdebug_mixed'):
-        img = _plain_image(data)
+        img = _plain_image(data, p.get('pad_str', 0))
         if img.has_debug_relocs():
             return _skip(spec, 'legacy naming with debug relocation sections is outside the envelope')
         did = 0
@@ -419,7 +436,7 @@ def _c11_exec(spec):
             probes['mixed_left_plain'] = len(left)
         same_view(res, cfg)
     elif cfg in ('split_link', 'split_link_nofollow', 'split_link_noloader', 'fault:link_crc'):
-        peer_img = _plain_image(data)
+        peer_img = _plain_image(data, p.get('pad_str', 0))
         if p.get('peer') == 'gabi':
             for s in peer_img.debug_sections():
                 peer_img.to_gabi(s, level)
